@@ -1,6 +1,9 @@
 // C52 — SquidMath.h overflow-safe helpers vs __int128 (E1): Less(), IncreaseSum(), NaturalSum(),
 // SetToNaturalSumOrMax() for all ordered pairs/triples of the eight fixed-width integer types.
 // Header-only code of the current tree, instantiated in this translation unit with ASan+UBSan.
+#ifndef C52_PART
+#define C52_PART 1     // this file is compiled three times (C52_part2.cc / C52_part3.cc include it) to keep compile time down
+#endif
 #include "squid.h"
 #include "SquidMath.h"
 
@@ -191,6 +194,7 @@ template <class S, class A, class B, class C> bool checkNatural3(const A a, cons
     return true;
 }
 
+#if C52_PART == 1
 // ---- exhaustive over [alo,ahi] x all of B
 template <class A, class B> void exhaustivePair(int64_t alo, int64_t ahi)
 {
@@ -212,12 +216,36 @@ template <class A, class B> void boundaryPair()
         for (B b : vb) {
             if (!checkLess(a, b)) return;
             if (!checkIncrease(a, b)) return;
-            bool ok = true;
-            forTypes([&](auto s) { typedef typename decltype(s)::type S; if (ok) ok = checkNatural2<S>(a, b); });
-            if (!ok) return;
         }
 }
 
+template <class T> constexpr bool small() { return sizeof(T) <= 2; }
+#endif
+
+#if C52_PART == 2
+// NaturalSum<S>(a,b) / SetToNaturalSumOrMax<S>(a,b): every ordered pair of argument types, result types {uint8,int16,int32,uint32,int64,uint64}
+template <class A, class B> void boundaryPairNatural()
+{
+    const std::vector<A> va = boundary<A>(false);
+    const std::vector<B> vb = boundary<B>(false);
+    for (A a : va)
+        for (B b : vb) {
+            if (!checkNatural2<uint8_t>(a, b)) return;
+            if (!checkNatural2<int16_t>(a, b)) return;
+            if (!checkNatural2<int32_t>(a, b)) return;
+            if (!checkNatural2<uint32_t>(a, b)) return;
+            if (!checkNatural2<int64_t>(a, b)) return;
+            if (!checkNatural2<uint64_t>(a, b)) return;
+        }
+}
+#endif
+
+#if C52_PART == 3
+template <class F> void forTripleTypes(F f)
+{
+    f(Tag<int8_t>()); f(Tag<uint16_t>()); f(Tag<int32_t>()); f(Tag<int64_t>()); f(Tag<uint64_t>());
+}
+// three-argument sums: every ordered triple over {int8,uint16,int32,int64,uint64}, result types {third argument's, uint64, int32}
 template <class A, class B, class C> void boundaryTriple()
 {
     const std::vector<A> va = boundary<A>(true);
@@ -226,19 +254,60 @@ template <class A, class B, class C> void boundaryTriple()
     for (A a : va)
         for (B b : vb)
             for (C c : vc) {
-                if (!checkNatural3<C>(a, b, c)) return;          // result type = third argument's type
+                if (!checkNatural3<C>(a, b, c)) return;
                 if (!checkNatural3<uint64_t>(a, b, c)) return;
                 if (!checkNatural3<int32_t>(a, b, c)) return;
-                if (!checkNatural3<uint8_t>(a, b, c)) return;
             }
 }
+#endif
 
-template <class T> constexpr bool small() { return sizeof(T) <= 2; }
+} // namespace
 
-void body(V::Ctx &ctx)
+void c52_part2(V::Ctx &);
+void c52_part3(V::Ctx &);
+
+#if C52_PART == 2
+void c52_part2(V::Ctx &)
+{
+    forTypes([&](auto ta) {
+        typedef typename decltype(ta)::type A;
+        forTypes([&](auto tb) {
+            typedef typename decltype(tb)::type B;
+            if (V::begin_case(std::string("natural2:") + tname<A>() + ":" + tname<B>())) {
+                boundaryPairNatural<A, B>();
+                T_.flush();
+                V::end_case();
+            }
+        });
+    });
+}
+#endif
+
+#if C52_PART == 3
+void c52_part3(V::Ctx &)
+{
+    forTripleTypes([&](auto ta) {
+        typedef typename decltype(ta)::type A;
+        forTripleTypes([&](auto tb) {
+            typedef typename decltype(tb)::type B;
+            forTripleTypes([&](auto tc) {
+                typedef typename decltype(tc)::type C;
+                if (V::begin_case(std::string("natural3:") + tname<A>() + ":" + tname<B>() + ":" + tname<C>())) {
+                    boundaryTriple<A, B, C>();
+                    T_.flush();
+                    V::end_case();
+                }
+            });
+        });
+    });
+}
+#endif
+
+#if C52_PART == 1
+static void body(V::Ctx &ctx)
 {
     const bool thorough = ctx.thorough();
-    // (1) exhaustive pairs: both types <= 16 bits; 16x16-bit pairs only in the thorough tier (4 x 2^32 evaluations each helper)
+    // (1) exhaustive pairs: both types <= 16 bits; 16x16-bit pairs only in the thorough tier (4 x 2^32 evaluations of each helper)
     forTypes([&](auto ta) {
         typedef typename decltype(ta)::type A;
         forTypes([&](auto tb) {
@@ -258,7 +327,7 @@ void body(V::Ctx &ctx)
             }
         });
     });
-    // (2) boundary-dense value sets: every ordered pair of the 8 types (Less, IncreaseSum, NaturalSum<S> for all 8 S, SetToNaturalSumOrMax)
+    // (2) boundary-dense value sets: Less and IncreaseSum for every ordered pair of the 8 types
     forTypes([&](auto ta) {
         typedef typename decltype(ta)::type A;
         forTypes([&](auto tb) {
@@ -270,23 +339,9 @@ void body(V::Ctx &ctx)
             }
         });
     });
-    // (3) three-argument sums: every ordered triple of argument types, 4 result types each
-    forTypes([&](auto ta) {
-        typedef typename decltype(ta)::type A;
-        forTypes([&](auto tb) {
-            typedef typename decltype(tb)::type B;
-            forTypes([&](auto tc) {
-                typedef typename decltype(tc)::type C;
-                if (V::begin_case(std::string("boundary3:") + tname<A>() + ":" + tname<B>() + ":" + tname<C>())) {
-                    boundaryTriple<A, B, C>();
-                    T_.flush();
-                    V::end_case();
-                }
-            });
-        });
-    });
+    c52_part2(ctx);     // (3) NaturalSum / SetToNaturalSumOrMax with two arguments
+    c52_part3(ctx);     // (4) ... with three arguments
 }
 
-} // namespace
-
 VHARNESS_MAIN(body)
+#endif
